@@ -66,7 +66,7 @@ def run(res):
     res.add_cov(evaluations=len(cases), distinct_nontrivial=min(distinct, nontriv), exhaustive=True,
                 rule="exhaustive enumeration: 3 required perms x 12 default sets x (not attached + 12 attached sets) x 4 method shapes/outcomes; "
                      "12 header forms x 6 query forms with a 4-entry verifier table; 3 constructions. non-trivial = some permission set or token involved; distinct by full case record",
-                samples=[proxy[5][0], proxy[-1][0], http[2][0], http[-1][0], build[0][0]],
+                samples=[l[i][0] for l, i in ((proxy, 5), (proxy, -1), (http, 2), (http, -1), (build, 0)) if len(l) > max(i, 0)],
                 histogram={"proxy": len(proxy), "http": len(http), "build": len(build),
                            "proxy_invoked": sum(1 for c, _ in proxy if c["invoked"] == 1), "http_401": sum(1 for c, _ in http if c["status"] == 401)})
     res.assumptions += ["reflect.MakeFunc / MethodByName dispatch and http.Request.FormValue are Go runtime/stdlib (modelled, not verified)",
